@@ -107,6 +107,13 @@ func efundScenario() *Scenario {
 		one("wreg(PB,fee10,staleseq)", model.Tx{Msgs: []model.Msg{wregMsg("PB")}, Fee: fee(10), SeqDelta: -1}),
 		one("stream(PB->O,60@1)", model.Tx{Msgs: []model.Msg{{Kind: model.StrCreate, From: "PB", To: "O", Den: mc.Nund, Amt: "60", Rate: 1}}}),
 		one("send(PA->escrow,1)", model.Tx{Msgs: []model.Msg{{Kind: model.BankSend, From: "PA", To: model.ModEnt, Den: mc.Nund, Amt: "1"}}}),
+		// two transactions in one block: one rejected in the ante chain after its unlock, then a paying one
+		act("wreg(PA,fee10,badsig);wreg(PB,fee10)", func(*model.State) []model.Tx {
+			return []model.Tx{{Msgs: []model.Msg{wregMsg("PA")}, Fee: fee(10), BadSig: true}, {Msgs: []model.Msg{wregMsg("PB")}, Fee: fee(10)}}
+		}),
+		act("wreg(PB,fee10,staleseq);wreg(PA,fee10);wreg(PD,fee10)", func(*model.State) []model.Tx {
+			return []model.Tx{{Msgs: []model.Msg{wregMsg("PB")}, Fee: fee(10), SeqDelta: -1}, {Msgs: []model.Msg{wregMsg("PA")}, Fee: fee(10)}, {Msgs: []model.Msg{wregMsg("PD")}, Fee: fee(10)}}
+		}),
 	)
 	s.Actions = append(s.Actions,
 		one("breg(PA,fee10)", model.Tx{Msgs: []model.Msg{{Kind: model.BcnReg, From: "PA", S: []string{"bmon", "bname"}}}, Fee: fee(10)}),
